@@ -143,12 +143,12 @@ def run_stampede(seed=0, tid=1):
 
         def target(*args, **kwargs):
             calls[0] += 1
-            clock.advance(1)                      # the function "takes" one tick
+            clock.advance(5 if calls[0] == 1 else 1)   # the first computation is slow (5 ticks), later ones take 1 tick
             return repr((args, sorted(kwargs.items())))
-        f = diskcache.memoize_stampede(c, 10, name='t')(target)
+        f = diskcache.memoize_stampede(c, 20, name='t')(target)
         _r.random = lambda: 0.999999
         r1 = f(1)
-        clock.advance(9)                          # one tick before expiry
+        clock.advance(19)                         # one tick before expiry
         _r.random = lambda: 1e-9                  # early recomputation is chosen
         before = threading.active_count()
         r2 = f(1)
